@@ -82,6 +82,39 @@ Resend(ts) ==
   /\ sent' = Append(sent, [ts |-> ts, val |-> Fit(Load(hist, ts))])
   /\ UNCHANGED <<hist, horigin, latest, efile>>
 
+-----------------------------------------------------------------------------
+(* The sync exchange.  A reply is described abstractly:                     *)
+(*  [len, key, offset, bits, mig |-> [present, newgca, newid, sig],         *)
+(*   servers |-> sequence of [key, banned, loc, ports, sig], listok,        *)
+(*   time |-> "fresh" | "old" | "future", sig]                              *)
+(* ctx = [server |-> key of the contacted server, gca |-> the client's      *)
+(* current GCA key, dev |-> the client's own key].                          *)
+MinReplyLen == 712   \* 576 fixed bytes + migration signature + time + signature
+
+SValid(sig, key) == sig.ok /\ sig.by = key /\ key # "none"
+
+(* staticServerSync's sequence of checks *)
+ParseOutcome(r, ctx) ==
+  IF r.len < MinReplyLen
+  THEN (IF "shortreply" \in CDefects THEN "PANIC" ELSE "short")
+  ELSE IF r.time # "fresh" THEN "stale"
+  ELSE IF ~SValid(r.sig, ctx.server) THEN "badsig"
+  ELSE IF r.key # ctx.dev THEN "wrongdevice"
+  ELSE IF r.mig.present /\ ~SValid(r.mig.sig, ctx.gca) THEN "badmigration"
+  ELSE IF ~r.listok THEN "badlist"
+  ELSE IF \E i \in 1..Len(r.servers) :
+            ~SValid(r.servers[i].sig, IF r.mig.present THEN r.mig.newgca ELSE ctx.gca)
+       THEN "badserver"
+  ELSE "ok"
+
+(* C10: the declarative acceptance condition *)
+Authentic(r, ctx) ==
+  /\ r.len >= MinReplyLen /\ r.time = "fresh" /\ r.listok
+  /\ SValid(r.sig, ctx.server) /\ r.key = ctx.dev
+  /\ (r.mig.present => SValid(r.mig.sig, ctx.gca))
+  /\ \A i \in 1..Len(r.servers) :
+        SValid(r.servers[i].sig, IF r.mig.present THEN r.mig.newgca ELSE ctx.gca)
+
 CInit == hist = <<>> /\ horigin = 0 /\ latest = 0 /\ efile = <<>> /\ sent = <<>>
 
 -----------------------------------------------------------------------------
